@@ -648,73 +648,129 @@ Section SEM.
 
   Variable tables : list (string * table).       (* the stored tables, by name *)
 
-  Fixpoint eval_sel (fuel : nat) (cte : env) (top : bool) (s : select) : option table :=
-    match fuel with
-    | O => None
-    | S f =>
+  (* The stages of one SELECT, each a plain function; [rec] evaluates a nested statement (WITH entries, operands
+     of UNION ALL / INTERSECT). *)
+  Section STAGES.
+    Variable rec : env -> bool -> select -> option table.
+
+    (* WITH list: printed (hence evaluated) only at the top of a statement; a later entry may use an earlier one *)
+    Definition stage_with (cte : env) (top : bool) (withs : list (string * select)) : option env :=
+      if top then
+        fold_left (fun acc w => match acc with
+                                | Some e => match rec e false (snd w) with Some t => Some ((fst w, t) :: e) | None => None end
+                                | None => None end) withs (Some cte)
+      else Some cte.
+
+    (* FROM *)
+    Definition stage_from (cte2 : env) (from : option expr) : option table :=
+      let subs := fun (l : list select) => all_some (map (rec cte2 true) l) in
+      match from with
+      | Some (Col (Id t) a) => match env_get t tables with Some rows => Some (map (qualify a) rows) | None => None end
+      | Some (Id t) => env_get t tables
+      | Some (WRef a) => match env_get a cte2 with Some rows => Some (map (qualify a) rows) | None => None end
+      | Some (Col (Intersect l) a) =>
+          (* INTERSECT: the rows of the left operand that also occur in every other operand (by position) *)
+          match subs l with
+          | Some (t0 :: ts) => Some (map (qualify a) (filter (fun r => forallb (fun t => existsb (positional_eq r) t) ts) t0))
+          | _ => None
+          end
+      | Some (Col (Union l) a) =>
+          match subs l with Some ts => Some (map (qualify a) (List.concat ts)) | None => None end
+      | _ => None
+      end.
+
+    (* ARRAY JOIN: one output row per array element; the element is visible under the alias *)
+    Definition array_join (cte2 : env) (je : expr) (rows : table) : option table :=
+      let '(arr, name) := match je with Col x a => (x, a) | x => (x, match x with Id n => n | _ => "" end) end in
+      match all_some (map (fun r => match ev cte2 [] [] ev_fuel false "" [] r arr with
+                                    | Some (VArr l) => Some (map (fun el => (name, el) :: r) l)
+                                    | _ => None end) rows) with
+      | Some rs => Some (List.concat rs)
+      | None => None
+      end.
+    Definition stage_joins (cte2 : env) (joins : list (jkind * expr * option expr)) (src : option table) : option table :=
+      fold_left (fun acc j => match acc, j with
+                              | Some rows, (JArray, je, None) => array_join cte2 je rows
+                              | _, _ => None
+                              end) joins src.
+
+    (* keep the elements whose condition is true (not false, not NULL) *)
+    Definition keep_true {A} (cond : A -> option value) (l : list A) : option (list A) :=
+      match all_some (map (fun x => match cond x with
+                                    | Some v => match truth v with Some t => Some (x, t) | None => None end
+                                    | None => None end) l) with
+      | Some ps => Some (map fst (filter (fun p => match snd p with Some true => true | _ => false end) ps))
+      | None => None
+      end.
+
+    (* WHERE *)
+    Definition stage_where (cte2 : env) (cols : list expr) (wh : option expr) (rows0 : table) : option table :=
+      match wh with
+      | None => Some rows0
+      | Some w => keep_true (fun r => ev cte2 (col_aliases cols) [] ev_fuel false "" [] r w) rows0
+      end.
+
+    (* no GROUP BY: one output row per input row *)
+    Definition stage_project (cte2 : env) (cols : list expr) (names : list string) (rows1 : table) : option table :=
+      all_some (map (fun r => match all_some (map (fun nc => ev cte2 (col_aliases cols) [] ev_fuel false (fst nc) [] r (snd nc)) (combine names cols)) with
+                              | Some vs => Some (combine names vs) | None => None end) rows1).
+
+    Definition eq_keys (keys : list string) (a b : row) : bool :=
+      forallb (fun k => match lookup k a, lookup k b with Some x, Some y => veqb x y | _, _ => false end) keys.
+    Definition stmt_aliases (cols : list expr) (hv : option expr) : list (string * expr) :=
+      (col_aliases cols ++ match hv with Some h => having_aliases ev_fuel h | None => [] end)%list.
+    (* an expression over one group *)
+    Definition evg (cte2 : env) (aliases : list (string * expr)) (keys : list string) (self : string) (g : list row) (e : expr) : option value :=
+      match g with r0 :: _ => ev cte2 aliases keys ev_fuel true self g r0 e | [] => None end.
+    Definition out_row (cte2 : env) (aliases : list (string * expr)) (keys : list string) (names : list string) (cols : list expr) (g : list row) : option row :=
+      match all_some (map (fun nc => evg cte2 aliases keys (fst nc) g (snd nc)) (combine names cols)) with
+      | Some vs => Some (combine names vs) | None => None end.
+
+    (* GROUP BY keys, HAVING, SELECT list per group, ORDER BY .. LIMIT *)
+    Definition stage_group (cte2 : env) (cols : list expr) (names keys : list string) (hv : option expr)
+               (ob : list expr) (lim : option expr) (rows1 : table) : option table :=
+      if negb (forallb (fun r => forallb (fun k => match lookup k r with Some _ => true | None => false end) keys) rows1) then None else
+      let groups := group_rows (eq_keys keys) rows1 in
+      let aliases := stmt_aliases cols hv in
+      let kept : option (list (list row)) :=
+        match hv with
+        | None => Some groups
+        | Some h => keep_true (fun g => evg cte2 aliases keys "" g h) groups
+        end in
+      match kept with
+      | None => None
+      | Some gs =>
+        match lim with
+        | None => all_some (map (out_row cte2 aliases keys names cols) gs)     (* the order of a result without LIMIT does not matter *)
+        | Some (IntV k) =>
+            (* ORDER BY .. LIMIT k: the first k groups in the given order (ties: input order) *)
+            match all_some (map (fun g => match all_some (map (fun o => evg cte2 aliases keys "" g o) ob), out_row cte2 aliases keys names cols g with
+                                          | Some ks, Some r => Some (ks, r) | _, _ => None end) gs) with
+            | Some krs =>
+                match sort_by (map (fun o => match o with Ord _ d => d | _ => false end) ob) krs with
+                | Some sorted => Some (firstn (Z.to_nat k) (map snd sorted))
+                | None => None
+                end
+            | None => None
+            end
+        | Some _ => None
+        end
+      end.
+
+    Definition eval_body (cte : env) (top : bool) (s : select) : option table :=
       match s with
       | Sel withs distinct cols from joins pw wh hv gb ob lim =>
         if distinct then None else
         match pw with
         | Some _ => None
         | None =>
-          (* WITH list: printed (hence evaluated) only at the top of a statement; a later entry may use an earlier one *)
-          let cte1 :=
-            if top then
-              fold_left (fun acc w => match acc with
-                                      | Some e => match eval_sel f e false (snd w) with Some t => Some ((fst w, t) :: e) | None => None end
-                                      | None => None end) withs (Some cte)
-            else Some cte in
-          match cte1 with
+          match stage_with cte top withs with
           | None => None
           | Some cte2 =>
-            (* FROM *)
-            let subs := fun (l : list select) => all_some (map (eval_sel f cte2 true) l) in
-            let src : option table :=
-              match from with
-              | Some (Col (Id t) a) => match env_get t tables with Some rows => Some (map (qualify a) rows) | None => None end
-              | Some (Id t) => env_get t tables
-              | Some (WRef a) => match env_get a cte2 with Some rows => Some (map (qualify a) rows) | None => None end
-              | Some (Col (Intersect l) a) =>
-                  (* INTERSECT: the rows of the left operand that also occur in every other operand (by position) *)
-                  match subs l with
-                  | Some (t0 :: ts) => Some (map (qualify a) (filter (fun r => forallb (fun t => existsb (positional_eq r) t) ts) t0))
-                  | _ => None
-                  end
-              | Some (Col (Union l) a) =>
-                  match subs l with Some ts => Some (map (qualify a) (List.concat ts)) | None => None end
-              | _ => None
-              end in
-            (* ARRAY JOIN: one output row per array element; the element is visible under the alias *)
-            let joined : option table :=
-              fold_left (fun acc j =>
-                           match acc, j with
-                           | Some rows, (JArray, je, None) =>
-                               let '(arr, name) := match je with Col x a => (x, a) | x => (x, match x with Id n => n | _ => "" end) end in
-                               match all_some (map (fun r => match ev cte2 [] [] ev_fuel false "" [] r arr with
-                                                             | Some (VArr l) => Some (map (fun el => (name, el) :: r) l)
-                                                             | _ => None end) rows) with
-                               | Some rs => Some (List.concat rs)
-                               | None => None
-                               end
-                           | _, _ => None
-                           end) joins src in
-            match joined with
+            match stage_joins cte2 joins (stage_from cte2 from) with
             | None => None
             | Some rows0 =>
-              (* WHERE: keep the rows whose condition is true (not false, not NULL) *)
-              let filtered : option table :=
-                match wh with
-                | None => Some rows0
-                | Some w =>
-                    match all_some (map (fun r => match ev cte2 (col_aliases cols) [] ev_fuel false "" [] r w with
-                                                  | Some v => match truth v with Some t => Some (r, t) | None => None end
-                                                  | None => None end) rows0) with
-                    | Some ps => Some (map fst (filter (fun p => match snd p with Some true => true | _ => false end) ps))
-                    | None => None
-                    end
-                end in
-              match filtered with
+              match stage_where cte2 cols wh rows0 with
               | None => None
               | Some rows1 =>
                 match all_some (map col_name cols) with
@@ -722,56 +778,15 @@ Section SEM.
                 | Some names =>
                   match gb with
                   | [] =>
-                      (* no GROUP BY: one output row per input row; the subset has no aggregate without GROUP BY, no ORDER BY .. LIMIT here *)
+                      (* the subset has no aggregate without GROUP BY, no ORDER BY .. LIMIT here *)
                       match hv, lim with
-                      | None, None =>
-                          all_some (map (fun r => match all_some (map (fun nc => ev cte2 (col_aliases cols) [] ev_fuel false (fst nc) [] r (snd nc)) (combine names cols)) with
-                                                  | Some vs => Some (combine names vs) | None => None end) rows1)
+                      | None, None => stage_project cte2 cols names rows1
                       | _, _ => None
                       end
                   | _ =>
                       match all_some (map (fun k => match k with Id x => Some x | _ => None end) gb) with
                       | None => None
-                      | Some keys =>
-                        let eqk := fun (a b : row) => forallb (fun k => match lookup k a, lookup k b with Some x, Some y => veqb x y | _, _ => false end) keys in
-                        if negb (forallb (fun r => forallb (fun k => match lookup k r with Some _ => true | None => false end) keys) rows1) then None else
-                        let groups := group_rows eqk rows1 in
-                        let aliases := (col_aliases cols ++ match hv with Some h => having_aliases ev_fuel h | None => [] end)%list in
-                        let evg := fun (self : string) (g : list row) (e : expr) =>
-                                     match g with r0 :: _ => ev cte2 aliases keys ev_fuel true self g r0 e | [] => None end in
-                        (* HAVING *)
-                        let kept : option (list (list row)) :=
-                          match hv with
-                          | None => Some groups
-                          | Some h =>
-                              match all_some (map (fun g => match evg "" g h with
-                                                            | Some v => match truth v with Some t => Some (g, t) | None => None end
-                                                            | None => None end) groups) with
-                              | Some ps => Some (map fst (filter (fun p => match snd p with Some true => true | _ => false end) ps))
-                              | None => None
-                              end
-                          end in
-                        match kept with
-                        | None => None
-                        | Some gs =>
-                          let outrow := fun g => match all_some (map (fun nc => evg (fst nc) g (snd nc)) (combine names cols)) with
-                                                 | Some vs => Some (combine names vs) | None => None end in
-                          match lim with
-                          | None => all_some (map outrow gs)          (* the order of a result without LIMIT does not matter *)
-                          | Some (IntV k) =>
-                              (* ORDER BY .. LIMIT k: the first k groups in the given order (ties: input order) *)
-                              match all_some (map (fun g => match all_some (map (fun o => evg "" g o) ob), outrow g with
-                                                            | Some ks, Some r => Some (ks, r) | _, _ => None end) gs) with
-                              | Some krs =>
-                                  match sort_by (map (fun o => match o with Ord _ d => d | _ => false end) ob) krs with
-                                  | Some sorted => Some (firstn (Z.to_nat k) (map snd sorted))
-                                  | None => None
-                                  end
-                              | None => None
-                              end
-                          | Some _ => None
-                          end
-                        end
+                      | Some keys => stage_group cte2 cols names keys hv ob lim rows1
                       end
                   end
                 end
@@ -779,7 +794,13 @@ Section SEM.
             end
           end
         end
-      end
+      end.
+  End STAGES.
+
+  Fixpoint eval_sel (fuel : nat) (cte : env) (top : bool) (s : select) : option table :=
+    match fuel with
+    | O => None
+    | S f => eval_body (eval_sel f) cte top s
     end.
 End SEM.
 
